@@ -441,6 +441,10 @@ def check_C05(ctx):
     allout = concat(ctx, outs, "c05-lines.txt")
     s = hv(ctx, "replay-set", prop="C05", **{"in": allout})
     ctx.traces += s.get("cases", 0)
+    # growth beyond the listed properties: stats::Linkage against the merge machine of spec/HpoLinkage.tla (EXTRA only)
+    louts = [tlc(ctx, f"mc/MC_Linkage_{m}.cfg", "mc/MC_Linkage.tla", workers=8)["out"] for m in (("single", "average") if ctx.quick else ("single", "complete", "average"))]
+    ls = hv(ctx, "replay-linkage", **{"in": concat(ctx, louts, "linkage-lines.txt")})
+    ctx.extra["extra_linkage_matrices"] = ls.get("cases", 0)
     ctx.assumptions += ["small integers are exact in f32, so the crate's f32 result is compared with the spec's rational at relative 1e-6"]
     return finish(ctx)
 
